@@ -243,9 +243,9 @@ theorem nodup_map_inj {α β : Type} (f : α → β) : ∀ (l : List α), (l.map
 
 section Owner
 open Goyang.Lemmas.IncludeWorld
-variable {s : Split} {R R' : Registry} (opts : Opts) (plug : Plug)
+variable {s : Split} {R R' : Registry} (opts : Opts) (plug plug' : Plug)
   (ht : TextOK s) (hr : RegsOK s R R') (hl : LinkOK s R (linkAll R).1 (linkAll R').1)
-  (hW : (Ws s R R' opts plug).OK)
+  (hW : (Ws s R R' opts plug plug').OK)
 
 /-- The value of a top-level statement of the unsplit module. -/
 noncomputable def vm (s : Split) (R : Registry) (opts : Opts) (plug : Plug) : Stmt → Entry :=
@@ -254,35 +254,35 @@ noncomputable def vm (s : Split) (R : Registry) (opts : Opts) (plug : Plug) : St
 /-- The merged-submodule key goyang records for a submodule of the split. -/
 def mkey (s : Split) (sb : Mod) : String := sb.name ++ ":" ++ s.m.name
 
-omit opts plug in
+omit opts plug plug' in
 theorem mkey_inj (a b : Mod) (h : mkey s a = mkey s b) : a.name = b.name := by
   unfold mkey at h
   exact str_cancel _ _ ":" (str_cancel _ _ _ h)
 
-omit opts plug in
+omit opts plug plug' in
 theorem sub_kw_mod (ht : TextOK s) {sb : Mod} (h : sb ∈ s.subs) : isModKw sb.stmt = true := by
   unfold isModKw; rw [ht.sub_kw sb h]; rfl
 
-omit opts plug in
+omit opts plug plug' in
 theorem owner_kw_mod (ht : TextOK s) : isModKw s.owner.stmt = true := by
   unfold isModKw; rw [ht.owner_kw]; rfl
 
-omit opts plug in
+omit opts plug plug' in
 theorem owner_linked (hr : RegsOK s R R') (hl : LinkOK s R (linkAll R).1 (linkAll R').1) :
     (linkAll R').1.contains s.owner.seq = true := by
   rw [hr.owner_seq, hl.same s.m hr.m_mem]; exact hl.m_linked
 
-omit opts plug in
+omit opts plug plug' in
 theorem sub_seq_ne_owner (hr : RegsOK s R R') {sb : Mod} (h : sb ∈ s.subs) : sb.seq ≠ s.owner.seq := by
   rw [hr.owner_seq]; exact hr.sub_seqs_fresh sb h s.m hr.m_mem
 
-omit opts plug in
+omit opts plug plug' in
 theorem sub_eq_of_seq (hr : RegsOK s R R') : ∀ {a b : Mod}, a ∈ s.subs → b ∈ s.subs → a.seq = b.seq → a = b := by
   have := hr.sub_seqs_nodup
   intro a b ha hb hab
   exact nodup_map_inj _ _ this ha hb hab
 
-omit opts plug in
+omit opts plug plug' in
 theorem sub_eq_of_name (hr : RegsOK s R R') : ∀ {a b : Mod}, a ∈ s.subs → b ∈ s.subs → a.name = b.name → a = b := by
   have := hr.sub_names_nodup
   intro a b ha hb hab
